@@ -20,7 +20,7 @@ use crate::{
     },
     socket::{Socket, UdpSocket},
     utils::{maybe_gather, retry_on_timeout, u8_lower_upper},
-    GDErrorKind::{BadGame, Decompress, UnknownEnumCast},
+    GDErrorKind::{BadGame, Decompress, PacketBad, UnknownEnumCast},
     GDResult,
 };
 
@@ -157,19 +157,27 @@ impl ValveProtocol {
         buffer.move_cursor(-1)?;
         if header == 0xFE {
             // the packet is split
-            let mut main_packet = SplitPacket::new(engine, protocol, &mut buffer)?;
-            let mut chunk_packets = Vec::with_capacity((main_packet.total as usize).saturating_sub(1));
+            let first_packet = SplitPacket::new(engine, protocol, &mut buffer)?;
+            let total = first_packet.total as usize;
+            let mut packets = Vec::with_capacity(total);
+            packets.push(first_packet);
 
-            for _ in 1 .. main_packet.total {
+            // The fragments can arrive in any order (and more than once)
+            while packets.len() < total {
                 let new_data = self.socket.receive(Some(buffer_size))?;
                 buffer = Buffer::<LittleEndian>::new(&new_data);
-                let chunk_packet = SplitPacket::new(engine, protocol, &mut buffer)?;
-                chunk_packets.push(chunk_packet);
+                let packet = SplitPacket::new(engine, protocol, &mut buffer)?;
+                if packets.iter().any(|p| p.number == packet.number) {
+                    continue; // a duplicated fragment
+                }
+                packets.push(packet);
             }
 
-            chunk_packets.sort_by(|a, b| a.number.cmp(&b.number));
+            packets.sort_by(|a, b| a.number.cmp(&b.number));
 
-            for chunk_packet in chunk_packets {
+            let mut packets = packets.into_iter();
+            let mut main_packet = packets.next().ok_or(PacketBad)?;
+            for chunk_packet in packets {
                 main_packet.payload.extend(chunk_packet.payload);
             }
 
